@@ -11,12 +11,20 @@ import (
 	"verif/checks/c08"
 	"verif/checks/c09"
 	"verif/checks/c10"
+	"verif/checks/c11"
 	"verif/checks/c12"
+	"verif/checks/c15"
+	"verif/checks/c16"
+	"verif/checks/c17"
 	"verif/checks/c19"
 	"verif/common"
 )
 
 func init() {
+	registry["C17"] = c17.Run
+	registry["C16"] = c16.Run
+	registry["C15"] = c15.Run
+	registry["C11"] = c11.Run
 	registry["C06"] = c06.Run
 	registry["C12"] = c12.Run
 	registry["C05"] = c05.Run
